@@ -30,7 +30,8 @@ RULE = ("random systems: 1-3 species x 1-3 environments; density / chstt scalar 
         "random writes; malformed positions / species; species edits + regeneration; every 5th system has a chstt dictionary with "
         "an explicitly falsy entry (False / 0 / 0.0) for a used environment AND a truthy 'default' (also after an edit); spaces built with OMITTED constructor arguments (every 4th system omits the grid cell "
         "volume under a non-µm space unit; cell_env / w,h,d / boundary conditions / node volume and environment omitted at random; "
-        "constructor and rdspace_from_dict routes) against the documented defaults; sharing: "
+        "constructor and rdspace_from_dict routes) against the documented defaults; copy() histories (b = a.copy(), network.copy(), space.copy(); "
+        "writes / species edits + regeneration on one, both re-inspected against their own expected content); sharing: "
         "systems built from another system's arrays / the caller's ndarrays (constructor and property setters), a setter on one "
         "must change one entry of that system and nothing else, edits of the caller's arrays must not leak.  Non-trivial: more than one cell or "
         "species and a non-zero density somewhere; distinct by the whole description")
@@ -795,6 +796,124 @@ def run_sharing(ctx, desc, idx):
                       dict(case, edited_index=j), impl={"changed": leaks}, expected="unchanged")
 
 
+def run_copies(ctx, desc, idx):
+    """copy() histories: b = a.copy() (and copies of the network / the space), then writes through set_chemostat / set_state /
+    species edits + set_default_state / set_default_chemostats on ONE object; after every write BOTH are re-inspected
+    against expectations computed independently (density x volume formula, the flags, the entries written so far)"""
+    import copy as _copy
+    from strengths import RDSystem, UnitsSystem
+    rng = ctx.rng
+    if "state_override" in desc or "chem_override" in desc:
+        return
+    nsp, n = len(desc["species"]), desc["n"]
+    if not all(0 <= cell_env_vol_si(desc, c)[0] < len(desc["envs"]) for c in range(n)):
+        return
+    try:
+        a = build_real(desc)
+        b = a.copy()
+    except Exception as e:  # noqa
+        ctx.violation("copy-raises", "building / copying a valid system raised %s" % type(e).__name__, {"desc": desc, "kind": "copies"},
+                      impl=type(e).__name__, expected="two systems")
+        return
+    objs = {"a": {"sys": a, "desc": _copy.deepcopy(desc), "st": {}, "ch": {}},
+            "b (= a.copy())": {"sys": b, "desc": _copy.deepcopy(desc), "st": {}, "ch": {}}}
+    history = []
+
+    def inspect(written):
+        for name, o in objs.items():
+            d_ = o["desc"]
+            want_s = [o["st"].get(s_ * n + c_, expected_state_si(d_, s_, c_)) for s_ in range(nsp) for c_ in range(n)]
+            want_c = [o["ch"].get(s_ * n + c_, expected_chem(d_, s_, c_)) for s_ in range(nsp) for c_ in range(n)]
+            got_s = state_si(o["sys"])
+            got_c = [int(v) for v in o["sys"].chemostats]
+            case = {"desc": desc, "kind": "copies", "history": list(history)}
+            if got_c != want_c:
+                ctx.violation("copy:chemostats", "after %r the chemostat map of system %s is %r, expected %r (%s)"
+                              % (history[-1] if history else "copy()", name, got_c, want_c,
+                                 "the write was made on the other object" if name != written else "the written object itself"),
+                              case, impl={"system": name, "chemostats": got_c}, expected=want_c)
+                return False
+            if len(got_s) != len(want_s) or not all((close(g, w_, rel=1e-9) if w_ != 0 else g == 0) for g, w_ in zip(got_s, want_s)):
+                ctx.violation("copy:state", "after %r the state of system %s is not what its own history gives (%s)"
+                              % (history[-1] if history else "copy()", name,
+                                 "the write was made on the other object" if name != written else "the written object itself"),
+                              case, impl={"system": name, "state_si": [float(v) for v in got_s]}, expected=[float(v) for v in want_s])
+                return False
+        return True
+    ctx.case(("copies", idx), nontrivial=True)
+    ctx.count("copy_histories")
+    if not inspect(None):
+        return
+    for step in range(6):
+        name = rng.choice(sorted(objs))
+        o = objs[name]
+        s_, c_ = rng.randrange(nsp), rng.randrange(n)
+        flat = s_ * n + c_
+        what = rng.choice(["set_chem", "set_chem", "set_state", "edit_density", "edit_chstt"])
+        try:
+            if what == "set_chem":
+                cur = o["ch"].get(flat, expected_chem(o["desc"], s_, c_))
+                o["sys"].set_chemostat(s_, c_, 1 - cur)
+                o["ch"][flat] = 1 - cur
+                history.append([name, "set_chemostat", s_, c_, 1 - cur])
+            elif what == "set_state":
+                q = gen_quantity(rng, desc["sys"], QTYD)
+                o["sys"].set_state(s_, c_, q_real(q, QTYD))
+                o["st"][flat] = q["si"]
+                history.append([name, "set_state", s_, c_, q.get("text", q["v"])])
+            elif what == "edit_density":
+                spd = o["desc"]["species"][s_]
+                newd = gen_envval(rng, desc["envs"], lambda: gen_quantity(rng, spd["sys"], DENS))
+                o["sys"].network.species[s_].density = envval_real(newd, DENS)
+                o["sys"].set_default_state()
+                spd["density"] = newd
+                o["st"].clear()
+                history.append([name, "species[%d].density = ...; set_default_state()" % s_])
+            else:
+                newc = gen_envval(rng, desc["envs"], lambda: rng.random() < 0.5, comma=False)
+                o["sys"].network.species[s_].chstt = envval_real(newc, None)
+                o["sys"].set_default_chemostats()
+                o["desc"]["species"][s_]["chstt"] = newc
+                o["ch"].clear()
+                history.append([name, "species[%d].chstt = ...; set_default_chemostats()" % s_])
+        except Exception as e:  # noqa
+            ctx.violation("copy-write-raises", "%s on %s raised %s" % (what, name, type(e).__name__), {"desc": desc, "kind": "copies", "history": history},
+                          impl=type(e).__name__, expected="ok")
+            return
+        ctx.count("copy_writes")
+        if not inspect(name):
+            return
+    # ---- copies of the parts: editing a copy of the network / of the space leaves the original's defaults alone
+    try:
+        net2 = a.network.copy()
+        k = rng.randrange(nsp)
+        spd = objs["a"]["desc"]["species"][k]
+        newd = gen_envval(rng, desc["envs"], lambda: gen_quantity(rng, spd["sys"], DENS))
+        net2.species[k].density = envval_real(newd, DENS)
+        net2.species[k].chstt = not bool(net2.species[k].chstt) if not isinstance(net2.species[k].chstt, dict) else {"default": True}
+        space2 = a.space.copy()
+        sd = desc["space"]
+        if sd["kind"] == "grid":
+            space2.cell_vol = space2.cell_vol * 3.0
+            space2.cell_env = [(e + 1) % len(desc["envs"]) for e in space2.cell_env]
+        else:
+            for nd in space2.nodes:
+                nd.volume = nd.volume * 3.0
+                nd.environment = (nd.environment + 1) % len(desc["envs"])
+        history.append(["network.copy() / space.copy() edited (density, chstt, volumes x3, environments shifted)"])
+        a.set_default_state()
+        a.set_default_chemostats()
+        objs["a"]["st"].clear()
+        objs["a"]["ch"].clear()
+        history.append(["a", "set_default_state(); set_default_chemostats()"])
+    except Exception as e:  # noqa
+        ctx.violation("copy-parts-raises", "copying / editing the network or the space raised %s" % type(e).__name__,
+                      {"desc": desc, "kind": "copies", "history": history}, impl=type(e).__name__, expected="ok")
+        return
+    ctx.count("copy_part_edits")
+    inspect("a")
+
+
 def json_copy(x):
     import copy
     return copy.deepcopy(x)
@@ -818,6 +937,8 @@ def run(ctx, count=None):
         batch.append(rec)
         if i % 12 != 11 and (i % 2 == 0 or ctx.tier != "quick"):
             run_sharing(ctx, desc, i)
+        if i % 12 != 11 and (i % 2 == 1 or ctx.tier != "quick"):
+            run_copies(ctx, desc, i)
         if len(batch) >= 250:
             flush()
         if ctx.time_left() < 10:
@@ -871,6 +992,8 @@ def replay(ctx, rec):
     for _ in range(3):
         if case.get("kind") == "sharing":
             run_sharing(sink, desc, 0)
+        elif case.get("kind") == "copies":
+            run_copies(sink, desc, 0)
         else:
             run_system(sink, desc, 0)
     key = rec.get("key")
